@@ -146,7 +146,37 @@ def gc_module_d():
     return sp
 
 
-SCENARIOS = [('all-kinds', gc_module_a), ('late-table', gc_module_b), ('mixed-declared-extern-data', gc_module_c), ('only-export', gc_module_d)]
+def gc_module_e():
+    """entities mentioned ONLY inside a block nested in dead code (after return / br / unreachable): the parser never
+    attaches such a block to the body, so everything it mentions is garbage"""
+    sp = Spec()
+    sp.types = [([], []), (['i32'], ['i32']), (['i64'], ['i64'])]
+    sp.imports = [dict(module=S('e'), name=S('only_dead'), kind='func', type=2)]
+    dead_block = [OP('Block', blockty=BT_EMPTY),
+                  OP('Call', function_index=u32(2)), OP('GlobalGet', global_index=u32(0)), OP('Drop'),
+                  OP('I32Const', value=bv(0, 'i32')), OP('TableGet', table=u32(0)), OP('Drop'), OP('MemorySize', mem=u32(0)), OP('Drop'),
+                  OP('DataDrop', data_index=u32(0)), OP('ElemDrop', elem_index=u32(0)),
+                  OP('I64Const', value=sym('dk', 'i64')), OP('Call', function_index=u32(0)), OP('Drop'),
+                  OP('I32Const', value=sym('di', 'i32')), OP('I32Const', value=sym('dj', 'i32')), OP('CallIndirect', type_index=u32(1), table_index=u32(0)), OP('Drop'),
+                  OP('End')]
+    sp.funcs = [
+        dict(type=0, ops=tagged_body('run', 0, [OP('Return')] + dead_block)),
+        dict(type=0, ops=tagged_body('f_dead', 1)),
+        dict(type=0, ops=tagged_body('run2', 2, [OP('Block', blockty=BT_EMPTY), OP('Br', relative_depth=u32(0)), OP('Loop', blockty=BT_EMPTY), OP('Call', function_index=u32(2)), OP('End'), OP('End'),
+                                              OP('Unreachable'), OP('I32Const', value=sym('c', 'i32')), OP('If', blockty=BT_EMPTY), OP('GlobalGet', global_index=u32(0)), OP('Drop'), OP('Else'), OP('ElemDrop', elem_index=u32(0)), OP('End')])),
+    ]
+    sp.func_tags = ['run', 'f_dead', 'run2']
+    sp.tables = [scen.table('t_dead', t64=False)]
+    sp.memories = [scen.mem('m_dead', m64=False, shared=False)]
+    sp.globals = [scen.glob('g_dead', 'i32', OP('I32Const', value=sym('g_init', 'i32')))]
+    sp.exports = [dict(name=S('run'), kind='Func', index=u32(1)), dict(name=S('run2'), kind='Func', index=u32(3))]
+    sp.elements = [dict(mode='passive', items=('funcs', [u32(2)]))]
+    sp.data = [dict(mode='passive', data=Opaque('bytes:pd'))]
+    sp.data_count = u32(1)
+    return sp
+
+
+SCENARIOS = [('dead-nested-blocks', gc_module_e), ('all-kinds', gc_module_a), ('late-table', gc_module_b), ('mixed-declared-extern-data', gc_module_c), ('only-export', gc_module_d)]
 
 
 def keep_sets(spec):
